@@ -27,12 +27,23 @@ ParseMatches(x, r) ==
 \* to the input and all its parts are valid and within the limits
 ImplPartition(x, s) == PartitionExactFor([ok |-> x.ok, ref |-> SeqRef(x.ref)], s) /\ (x.ok => x.str = s)
 
+\* the implementation's own predicates, asked about the parts its parser returned (pv:
+\* 0 false, 1 true, 2 not asked: empty part or failed parse), say what the grammar says;
+\* with ImplPartition: every returned part satisfies its own predicate
+Asked(part, isValid) == IF part = <<>> THEN 2 ELSE IF isValid THEN 1 ELSE 0
+PartPredicates(x) ==
+  IF ~x.ok THEN x.pv = <<2, 2, 2, 2>>
+  ELSE /\ x.pv = <<Asked(x.ref[1], IsHost(x.ref[1])), Asked(x.ref[2], IsRepository(x.ref[2])),
+                   Asked(x.ref[3], IsTag(x.ref[3])), Asked(x.ref[4], IsDigest(x.ref[4]))>>
+       /\ \A i \in 1..4 : x.pv[i] # 0
+
 RefOk(e) ==
   LET v == Verdict(e.s) IN
   /\ e.host = v.host /\ e.repo = v.repo /\ e.tag = v.tag /\ e.digest = v.digest
   /\ e.lrepo = v.repo /\ e.ltag = v.tag /\ e.ldigest = v.digest       \* ociregistry/valid.go
   /\ ParseMatches(e.rel, v.rel) /\ ParseMatches(e.abs, v.abs)
   /\ ImplPartition(e.rel, e.s) /\ ImplPartition(e.abs, e.s)
+  /\ PartPredicates(e.rel) /\ PartPredicates(e.abs)
   /\ e.abs.ok => e.abs.ref[1] # <<>>
   /\ IF "pred" \in DOMAIN e
      THEN e.pred = Export(v)     \* TLC-generated case: the exported prediction is the verdict
@@ -46,6 +57,7 @@ PrintOk(e) ==
   LET p == SeqRef(e.p) IN
   /\ e.str = PrintRef(p)
   /\ (ValidParts(p) /\ p.host # <<>>) => (e.back.ok /\ e.back.ref = e.p /\ e.back.str = e.str)
+  /\ PartPredicates(e.back)
 
 RouteOk(e) ==
   LET r == Route(e.path) IN
